@@ -430,6 +430,9 @@ pub fn make(workers: usize, net: bool) -> C16 {
 pub fn run(ctx: &Ctx) -> i32 {
     let started = Instant::now();
     if let Some(p) = &ctx.replay {
+        if crate::fuzzdrive::is_artifact(p) {
+            return crate::fuzzdrive::replay_file("C16", "wire", p);
+        }
         return runner::replay(&make(1, true), p);
     }
     // through the wire: the client builds a TLS-capable reqwest client per request (OpenSSL trust store load, a global
@@ -457,5 +460,12 @@ pub fn run(ctx: &Ctx) -> i32 {
         "requests are kept within the tower's body limits (larger ones get 413 and are counted, not judged)".into(),
         "acknowledgement signatures are well-formed (malformed ones are C14's subject)".into(),
     ];
-    runner::conclude(ctx, "C16", stats, ev, started)
+    let mut stats = stats;
+    let inconclusive = crate::fuzzdrive::attach(ctx, "C16", "wire", &mut stats, &mut ev, 8, 1000000, 1024);
+    let code = runner::conclude(ctx, "C16", stats, ev, started);
+    if code == 0 && inconclusive {
+        2
+    } else {
+        code
+    }
 }
